@@ -15,7 +15,7 @@
 #ifndef VF_CAP
 #define VF_CAP 16
 #endif
-#define VF_CB_MAX 5
+#define VF_CB_MAX (VF_ACCEPT_MAX + 2 * VF_IO_MAX_CALLS + 3)	/* accept: connections + 1 error report; packet receiver: datagrams + error reports */
 static int vf_cb_calls, vf_cb_ret_first, vf_cb_ret_later;
 static int vf_cb_error[VF_CB_MAX], vf_cb_ev_cnt[VF_CB_MAX]; static uintptr_t vf_cb_skt[VF_CB_MAX]; static size_t vf_cb_size[VF_CB_MAX];
 static uint32_t vf_cb_eof0; static void *vf_cb_addr[VF_CB_MAX]; static size_t vf_cb_off[VF_CB_MAX];
@@ -113,7 +113,7 @@ void harness(void) {
 	task.event = TP_EV_READ; task.cb_func = (tp_task_cb)vf_accept_cb;
 	tp_task_accept_handler(&ev, ud);
 	const int expect_err = (ev_event == TP_EV_WRITE) ? EINVAL : pool_err;
-	VF_ASSERT(vf_cb_calls <= 4, "accept: bounded by the pending connections");
+	VF_ASSERT(vf_cb_calls <= VF_ACCEPT_MAX + 1, "accept: bounded by the pending connections");
 	if (expect_err != 0) {
 		VF_ASSERT(vf_cb_calls == 1 && vf_cb_error[0] == expect_err && vf_cb_skt[0] == (uintptr_t)-1 && vf_cb_addr[0] == NULL && vf_accept_calls == 0,
 		    "accept: error / time-out / wrong event reported once, no descriptor, nothing accepted");
